@@ -80,7 +80,7 @@ HANDLE_NOTE = ("Trusted: " + TB_COMMON + " env/invoice.rs (utf-8, str::parse, li
 PROPS["C10"] = P(["handle"],
     "Proof (Verus): extract_trampoline_info/check_htlc verbatim: Trampoline(t) only if the metadata decodes, carries record 33001 whose utf-8 text parses to t.invoice, signature valid, invoice hash == HTLC hash, payee = signing key, amount rule (invoice amount, agreeing well-formed amount field; else exactly the declared amount), policy = configured; self-route-hint gate including the not-found half of the search (E8 closure contracts + env find).",
     HANDLE_NOTE, assumptions=["lightning_invoice parse/check_signature/get_payee_pub_key/route_hints behave as their uninterpreted views", "std iter().find returns the first match or None if no element matches (env HintIter::find)"])
-PROPS["C13"] = P(["handle"],
+PROPS["C13"] = P(["handle", "tlv_enc"],
     "Proof (Verus): the classification prefix of handle_htlc returns Continue (payload None, or the input records minus the first type-16 record, byte for byte and in order) or the self-hint Fail, with the ghost world unchanged (no RPC, no table access) on every path; check_htlc/default_response verbatim.",
     HANDLE_NOTE, assumptions=["get/remove/to_bytes contracts (first record of a type; concatenation of record encodings)"])
 
@@ -107,8 +107,8 @@ PROPS["C20"] = P(["height"],
     "Trusted: " + TB_COMMON + " env/height_env.rs (tokio Mutex<u32>: exclusive access; other holders only run update_height). NOT APPLICABLE clause: 'catches up within one poll interval' (timer liveness).",
     assumptions=["only the functions of block_watcher.rs write the height cell (field is private to the module)"])
 
-PROPS["C18"] = P(["tlv_dec"],
-    "Proof (Verus, unbounded loop invariant): get_compact_size, SerializedTlvStream::from_bytes and try_from(Vec<u8>) as extracted from src/tlv.rs are total (every bytes::Buf getter's remaining-length precondition is discharged: no panic on any byte string) and return exactly parse(bytes) of the BigSize/TLV spec functions in specs/tlv_spec.rs.",
+PROPS["C18"] = P(["tlv_dec", "tlv_enc"],
+    "Proof (Verus, unbounded loop invariant): get_compact_size, SerializedTlvStream::from_bytes and try_from(Vec<u8>) as extracted from src/tlv.rs are total (every bytes::Buf getter's remaining-length precondition is discharged: no panic on any byte string) and return exactly parse(bytes) of the BigSize/TLV spec functions in specs/tlv_spec.rs. Encoder: put_compact_size appends exactly cs_enc(x) (minimal BigSize), to_bytes returns the concatenation of the record encodings (loop invariant), and lemma_cs_roundtrip proves cs_dec(cs_enc(x) ++ rest) == (x, len) for all u64. The record-sequence round trip parse(enc_all(es)) == es was attempted as a lemma and is NOT proved (rlimit; kept under notes/unfinished).",
     "Trusted: " + TB_COMMON + " env/bytes.rs (mirror of bytes::Buf: big-endian getters, panic preconditions), AsRef view, 64-bit usize. get_tu64 is under an assumed contract in this unit (slice-range copy_from_slice / from_be_bytes are outside Verus' subset).",
     assumptions=["env/bytes.rs describes bytes-1.6 Buf for &[u8], Bytes and Take<Bytes>", "64-bit target"],
     bounded=[])
@@ -116,7 +116,7 @@ PROPS["C18"] = P(["tlv_dec"],
 NOT_APPLICABLE = {
     "C15": "planned as unit waitpay (DESIGN.md section 7, C15) but not built in the time available: wait_payment needs the join! expansion, an env model of FuturesUnordered and per-part ghost sets; no other technique is used instead. wait_payment enters pay/payment_lifecycle under its assumed interface contract.",
 }
-HOOK_COMMITS = ["a595cb4", "8d4e42a", "747697f", "d2148d0"]
+HOOK_COMMITS = ["a595cb4", "8d4e42a", "747697f", "d2148d0", "01828dc"]
 NOTES = "Contract-based deductive verification of the real code; see DESIGN.md. exit 2 = undecided (never a VIOLATION)."
 
 # where a function that other units enter as a contract-only stub is actually proved
@@ -129,4 +129,5 @@ PROVED_IN = {
     "tlv::ProtoBuf::get_compact_size": "unit tlv_dec",
     "tlv::SerializedTlvStream::from_bytes": "unit tlv_dec",
     "tlv::SerializedTlvStream::try_from": "unit tlv_dec",
+    "tlv::SerializedTlvStream::to_bytes": "unit tlv_enc",
 }
